@@ -59,23 +59,27 @@ type model struct {
 	funcs []*ssa.Function // all source functions of package scheduler (incl. anonymous)
 
 	// loop model
-	sel        *ssa.Select
-	header     *ssa.BasicBlock
-	loopBlocks map[*ssa.BasicBlock]bool
-	arms       []*arm
-	armReady   *arm
-	armEnq     *arm
-	armDone    *arm
-	enqOK      ssa.Value
-	readyList  ssa.Value
-	cPending   *ssa.Phi
-	cOngoing   *ssa.Phi
-	cWaiting   *ssa.Phi
-	enqPhi     ssa.Value // loop-carried local enqueue channel (phi) or the direct load
-	enqDirect  bool      // the enqueue arm receives from that value itself (not from something gated further)
-	emitCall   ssa.CallInstruction
-	counterErr string    // why the loop-carried counters could not be identified ("" if they were)
-	stateVal   ssa.Value // the State value whose fields identify the counters (nil: identified structurally)
+	sel           *ssa.Select
+	header        *ssa.BasicBlock
+	loopBlocks    map[*ssa.BasicBlock]bool
+	arms          []*arm
+	armReady      *arm
+	armEnq        *arm
+	armDone       *arm
+	enqOK         ssa.Value
+	readyList     ssa.Value
+	cPending      *counter
+	cOngoing      *counter
+	cWaiting      *counter
+	counters      []*counter
+	onceMemo      map[string]ssa.Value // address key of a loop-local cell written exactly once -> the value stored
+	containedMemo map[*ssa.Alloc]bool
+	extraLists    []*ssa.Call // list.New() calls inside the loop besides the ready list's
+	enqPhi        ssa.Value   // loop-carried local enqueue channel (phi) or the direct load
+	enqDirect     bool        // the enqueue arm receives from that value itself (not from something gated further)
+	emitCall      ssa.CallInstruction
+	counterErr    string    // why the loop-carried counters could not be identified ("" if they were)
+	stateVal      ssa.Value // the State value whose fields identify the counters (nil: identified structurally)
 
 	// worker model
 	wRecv    *ssa.UnOp // <-readyc, ok
@@ -549,6 +553,198 @@ func (m *model) computeSites() {
 			m.bindSite[fn] = cs[0]
 		}
 	}
+}
+
+// counter is one of the loop's integer counters: a loop-carried SSA value (header phi), or - when the loop keeps
+// its bookkeeping in a local struct - a memory cell of the loop function identified by the key of its address.
+type counter struct {
+	phi  *ssa.Phi
+	cell string
+	name string
+}
+
+// cellKey: the canonical key of the address loaded by v, if v is a load from a local cell of the loop function.
+func (m *model) cellKey(v ssa.Value) (string, *ssa.UnOp) {
+	u, ok := ssax.Unspill(v).(*ssa.UnOp)
+	if !ok || u.Op != token.MUL {
+		return "", nil
+	}
+	k := m.key(u.X)
+	if strings.Contains(k, "alloc:") && strings.Contains(k, "@"+m.fnLoop.String()) && strings.HasPrefix(k, "&") {
+		if a := m.rootAlloc(u.X); a != nil && m.contained(a) {
+			return k, u
+		}
+	}
+	return "", nil
+}
+
+// rootAlloc: the local variable an address is derived from (through field selection, bound parameters and
+// captured variables).
+func (m *model) rootAlloc(addr ssa.Value) *ssa.Alloc {
+	for i := 0; i < 20; i++ {
+		switch x := addr.(type) {
+		case *ssa.Alloc:
+			return x
+		case *ssa.FieldAddr:
+			addr = x.X
+		case *ssa.Parameter:
+			c, ok := m.bindSite[x.Parent()]
+			if !ok {
+				return nil
+			}
+			addr = nil
+			for k, p := range x.Parent().Params {
+				if p == x && k < len(c.Common().Args) {
+					addr = c.Common().Args[k]
+				}
+			}
+		case *ssa.FreeVar:
+			addr = ssax.BindingOf(x)
+		case *ssa.UnOp:
+			u := ssax.Unspill(x)
+			if u == ssa.Value(x) {
+				return nil
+			}
+			addr = u
+		default:
+			return nil
+		}
+		if addr == nil {
+			return nil
+		}
+	}
+	return nil
+}
+
+// contained: every use of the address of local variable a is a field selection, a load, a store to a scalar
+// field, or a plain call handing the address to a function that is called from this one place only and
+// runs on the loop goroutine (so its parameter is that address and its stores are found by key). Nothing
+// else can then write the variable's fields: the stores enumerated by cellStores are all there are.
+func (m *model) contained(a *ssa.Alloc) bool {
+	if m.containedMemo == nil {
+		m.containedMemo = map[*ssa.Alloc]bool{}
+	}
+	if r, ok := m.containedMemo[a]; ok {
+		return r
+	}
+	m.containedMemo[a] = false
+	seen := map[ssa.Value]bool{}
+	var walk func(v ssa.Value) bool
+	walk = func(v ssa.Value) bool {
+		if seen[v] {
+			return true
+		}
+		seen[v] = true
+		refs := v.Referrers()
+		if refs == nil {
+			return false
+		}
+		for _, r := range *refs {
+			switch x := r.(type) {
+			case *ssa.DebugRef:
+			case *ssa.FieldAddr:
+				if x.X != v || !walk(x) {
+					return false
+				}
+			case *ssa.UnOp:
+				if x.Op != token.MUL {
+					return false
+				}
+				// a loaded pointer field (e.g. the list) is a value, not an address of the variable
+			case *ssa.Store:
+				if x.Addr != v || x.Val == v {
+					return false
+				}
+				if _, whole := ssax.Deref(v.Type()).Underlying().(*types.Struct); whole {
+					return false // the whole bookkeeping struct is overwritten
+				}
+			case *ssa.Call:
+				callee := x.Call.StaticCallee()
+				if callee == nil || callee.Blocks == nil || m.bindSite[callee] != ssa.CallInstruction(x) || !m.inLoopGoroutine(callee) {
+					return false
+				}
+				for k, arg := range x.Call.Args {
+					if arg == v {
+						if k >= len(callee.Params) || !walk(callee.Params[k]) {
+							return false
+						}
+					}
+				}
+				if x.Call.Value == v {
+					return false
+				}
+			case *ssa.MakeClosure:
+				fn, _ := x.Fn.(*ssa.Function)
+				if fn == nil || !m.inLoopGoroutine(fn) {
+					return false
+				}
+				for k, b := range x.Bindings {
+					if b == v && !walk(fn.FreeVars[k]) {
+						return false
+					}
+				}
+			default:
+				return false
+			}
+		}
+		return true
+	}
+	ok := walk(a)
+	m.containedMemo[a] = ok
+	return ok
+}
+
+// counterOf: the counter that v is a reading of (the header phi itself, or a load of the counter's cell).
+func (m *model) counterOf(v ssa.Value) *counter {
+	if v == nil {
+		return nil
+	}
+	r := m.resolve(v)
+	for _, c := range m.counters {
+		if c.phi != nil && r == ssa.Value(c.phi) {
+			return c
+		}
+		if c.cell != "" {
+			if k, _ := m.cellKey(r); k == c.cell {
+				return c
+			}
+		}
+	}
+	return nil
+}
+
+// cellStores: the stores to a memory cell (by address key) in the loop goroutine's functions.
+func (m *model) cellStores(cell string) []*ssa.Store {
+	var out []*ssa.Store
+	for _, fn := range m.loopFuncs() {
+		ssax.Instrs(fn, func(in ssa.Instruction) {
+			if st, ok := in.(*ssa.Store); ok && m.key(st.Addr) == cell {
+				out = append(out, st)
+			}
+		})
+	}
+	return out
+}
+
+// freshAt: the value read by `load` from a counter cell is still the cell's content when `at` executes
+// (no store to the cell can happen in between).
+func (m *model) freshAt(cell string, load, at ssa.Instruction) bool {
+	if load.Parent() != at.Parent() {
+		load = m.rootSite(load)
+		if load.Parent() != at.Parent() {
+			return false
+		}
+	}
+	for _, st := range m.cellStores(cell) {
+		var s ssa.Instruction = st
+		if s.Parent() != at.Parent() {
+			s = m.rootSite(s)
+		}
+		if s.Parent() == at.Parent() && between(load, s, at) {
+			return false
+		}
+	}
+	return true
 }
 
 // top returns the outermost function enclosing fn (anonymous functions -> their declaring function).
